@@ -34,10 +34,10 @@ CHECKS['C15'] = dict(
           '(with the two corners where the published rule itself is non-zero proved as such), sign and additivity for '
           'ACT/fixed, ICMA regular period = 1/frequency, and error_kind: no failure other than FinError is reachable '
           '(ZeroDivision only for a zero-length ICMA period). Multi-year ACT/ACT ISDA = closed form of the per-year sum (its '
-          'shape across years, antisymmetry) are theorems in Props/C15b; ACT/365L against the spec '
-          'is validated by the correspondence (implementation = generated model = source-independent spec, numerator '
+          'shape across years, antisymmetry) are theorems in Props/C15b and ACT/365L = its rule (all dates from 1900, with or '
+          'without the period end) in Props/C15c; all of them are also compared by the correspondence (implementation = generated model = source-independent spec, numerator '
           'and denominator exact) on >=6e4 date pairs per quick run.'),
-    note=BASE_NOTE + 'Spec formulas are a transcription of ISDA 2006 4.16 / ICMA 251; ACT/365L leap logic is validated against the spec, not a theorem.',
+    note=BASE_NOTE + 'Spec formulas are a transcription of ISDA 2006 4.16 / ICMA 251; theorems about serials assume years >= 1900/1901 (the domain of the property starts 1 Mar 1900).',
     technique='Lean 4 theorems on a model regenerated from the source (py2lean) + model/implementation/spec correspondence with exact rationals',
     design='§5 C15')
 
